@@ -26,13 +26,15 @@ class C22(core.Check):
     technique = ("Lean 4 theorems over a model of Memoer.pick / _serviceOneReceived / fuse / _serviceOnceRxGrams with every raising operation "
                  "carrying its exception class and the except-clause class sets regenerated from the source; signature verification abstract; "
                  "differential fuzz (all truncations, single-byte mutations, structured malformed grams, random bytes) against the real Memoer with real pysodium")
-    level_text = ("Proved for ALL datagram byte strings, ALL receiver states and ALL verify functions (unbounded): rx_total (one received datagram never "
-                  "makes _serviceOneReceived raise, provided verify itself raises only MemoerError/MemoerVerifyError/ValueError-family classes), "
-                  "fuse_total / service_total (a whole serviceAllRx() over any queue never raises), rx_invalid_dropped (a datagram that pick rejects leaves "
-                  "the receiver state unchanged), authentic (with authic, from the empty state, every stored gram of every memo passed verify under the vid "
-                  "that is delivered with the memo, for every history of batches), authentic_delivered, tampered_dropped (a signed gram whose verify fails "
-                  "is never stored, in particular any single-byte mutation under the unforgeability hypothesis). "
-                  "The except-clause class sets and code/size tables are regenerated from the source on every run.")
+    level_text = ("Proved for ALL datagram byte strings, ALL receiver states, ALL histories of service calls and ALL verify functions V (unbounded): "
+                  "rx_total / service_total / history_total (nothing raises out of _serviceOneReceived, serviceAllRx, or any history, provided V itself "
+                  "raises only classes the except clause stops — hypothesis VSafe, checked on every sampled call), parse_classes_caught (decide over the "
+                  "regenerated except-clause class sets), rx_invalid_dropped (a rejected gram leaves the state unchanged), authentic (authic, from the empty "
+                  "state, any history: every delivered memo has a vid and its text is a concatenation of bodies each lying in a signed part that passed V under "
+                  "that vid; same for every stored gram; needs V [] _ _ != ok), authic_requires_verified, tampered_dropped (a datagram whose signed pair verifies "
+                  "under no vid leaves the receiver unchanged) with signed_pair_determines_gram (so every single-byte mutation has a different signed pair: "
+                  "dropped under unforgeability). Nothing is _partial; unforgeability of ed25519 and the internals of Memoer.verify are hypotheses, "
+                  "exercised by the correspondence with real pysodium.")
     level_note = ("Trusted: Lean kernel + propext/Classical.choice/Quot.sound; translator harness/extract/memo.py; Memoer.verify (pysodium, stdlib base64) is a "
                   "parameter of the model: its outcome per (vid, sig, ser) is taken from an independent reference implementation in the harness and the "
                   "real run is compared against it by the correspondence; CPython utf-8 decoding modelled by a validity predicate. "
